@@ -164,3 +164,34 @@ def gen(rng, tier):
         if i % 11 == 0:   # payload classes: 33 bytes ending in 0x02, 31 bytes, key >= n, empty
             for pl in (k + b"\x02", k[:31], b"\xff" * 32, b"\xff" * 32 + b"\x01", b"", k + b"\x01\x01"):
                 yield Case("wifdec", [tx(Base58Encoder.CheckEncode(v + pl)), hx(v)], "neg-wif-payload")
+
+
+def relations(rng, tier, rpt):
+    """WIF through the key objects of the hierarchy classes: both compression modes asked of ONE object, in both orders, each answer
+    equal to the encoder's and decoding back to (key, mode)."""
+    from bip_utils import Bip44, Bip49, Bip84, Bip44Coins, Bip49Coins, Bip84Coins
+    bad = []
+    n = 0
+    for cls, coin in ((Bip44, Bip44Coins.BITCOIN), (Bip44, Bip44Coins.DOGECOIN), (Bip49, Bip49Coins.LITECOIN), (Bip84, Bip84Coins.BITCOIN), (Bip44, Bip44Coins.DASH), (Bip44, Bip44Coins.BITCOIN_TESTNET)):
+        for i in range(2 if tier == "quick" else 20):
+            seed = bytes(rng.randrange(256) for _ in range(32))
+            b = cls.FromSeed(seed, coin)
+            objs = [b.PrivateKey(), b.DeriveDefaultPath().PrivateKey()]
+            for pk in objs:
+                modes = [None, WifPubKeyModes.UNCOMPRESSED, WifPubKeyModes.COMPRESSED, WifPubKeyModes.UNCOMPRESSED]
+                if i % 2:
+                    modes.reverse()
+                for md in modes:
+                    n += 1
+                    w = pk.ToWif() if md is None else pk.ToWif(md)
+                    want_mode = WifPubKeyModes.COMPRESSED if md is None else md
+                    k, gm = WifDecoder.Decode(w, Base58Decoder.CheckDecode(w)[:1])
+                    ref = WifEncoder.Encode(pk.Raw().ToBytes(), Base58Decoder.CheckDecode(w)[:1], want_mode)
+                    if k != pk.Raw().ToBytes() or gm != want_mode or w != ref:
+                        bad.append({"property": "C13", "entry_point": "%s[%s] PrivateKey().ToWif" % (cls.__name__, coin.name), "request_lines": [],
+                                    "relation": "ToWif(mode) of a key object asked for several modes does not round-trip to (key, mode)",
+                                    "input": "%s modes=%s at %s" % (seed.hex(), [str(m) for m in modes], want_mode), "impl_output": "%s -> %s %s" % (w, k.hex(), gm),
+                                    "model_output": "%s -> %s %s" % (ref, pk.Raw().ToHex(), want_mode), "no_failing_input": False})
+                        break
+    rpt.extra["key_object_wif_checks"] = n
+    return bad[:5]
